@@ -12,6 +12,8 @@ import threading
 ENABLED = os.environ.get("FLOX_VERIF") == "1"
 _lock = threading.Lock()
 _seq = 0
+_calls = 0
+_tls = threading.local()
 EVENTS: list = []
 
 
@@ -21,7 +23,7 @@ def emit(ev, **kw):
     global _seq
     with _lock:
         _seq += 1
-        rec = {"seq": _seq, "ev": ev, **{k: (v if isinstance(v, (int, float, str, bool, type(None))) else repr(v)) for k, v in kw.items()}}
+        rec = {"seq": _seq, "pid": os.getpid(), "cid": getattr(_tls, "cid", 0), "ev": ev, **{k: (v if isinstance(v, (int, float, str, bool, type(None))) else repr(v)) for k, v in kw.items()}}
         EVENTS.append(rec)
         if len(EVENTS) > 10000:
             del EVENTS[:5000]
@@ -29,3 +31,63 @@ def emit(ev, **kw):
         if path:
             with open(path, "a") as f:
                 f.write(json.dumps(rec) + "\n")
+
+
+def _describe(array, by, kw):
+    """cheap scalar description of a groupby_reduce call (no data is touched)"""
+    func = kw.get("func")
+    reindex = kw.get("reindex")
+    eg = kw.get("expected_groups")
+    axis = kw.get("axis")
+    isbin = kw.get("isbin", False)
+    return dict(
+        func=func if isinstance(func, str) else getattr(func, "name", type(func).__name__),
+        engine=kw.get("engine"),
+        method=kw.get("method"),
+        reindex=reindex if reindex is None or isinstance(reindex, bool) else "strategy",
+        arr_dask=hasattr(array, "dask") and hasattr(array, "numblocks"),
+        arr_chunked=hasattr(array, "chunks") and not isinstance(array, (list, tuple)),
+        by_dask=any(hasattr(b, "dask") for b in by),
+        nby=len(by),
+        expected=(any(e is not None for e in eg) if isinstance(eg, tuple) else eg is not None),
+        isbin=(any(isbin) if isinstance(isbin, (tuple, list)) else bool(isbin)),
+        dtype_arg=kw.get("dtype") is not None,
+        arr_kind=getattr(getattr(array, "dtype", None), "kind", "?"),
+        arr_ndim=getattr(array, "ndim", -1),
+        by_ndim=max([getattr(b, "ndim", 1) for b in by] or [0]),
+        axis=None if axis is None else ([axis] if isinstance(axis, int) else [int(a) for a in axis]),
+        numblocks=[int(n) for n in array.numblocks] if hasattr(array, "numblocks") else None,
+        fill=kw.get("fill_value") is not None,
+        min_count=kw.get("min_count"),
+        sort=bool(kw.get("sort", True)),
+    )
+
+
+def traced_call(fn):
+    """wrap groupby_reduce: one "call" event per outermost call, emitted when it returns or raises
+    (the "plan" event emitted inside carries the same call id)"""
+    import functools
+
+    @functools.wraps(fn)
+    def wrapper(array, *by, **kw):
+        global _calls
+        if getattr(_tls, "cid", 0):
+            return fn(array, *by, **kw)
+        with _lock:
+            _calls += 1
+            _tls.cid = _calls
+        kind = "ok"
+        try:
+            return fn(array, *by, **kw)
+        except BaseException as e:
+            kind = type(e).__name__
+            raise
+        finally:
+            try:
+                desc = _describe(array, by, kw)
+            except Exception as e:  # noqa: BLE001
+                desc = {"describe_error": repr(e)}
+            emit("call", kind=kind, **desc)
+            _tls.cid = 0
+
+    return wrapper
